@@ -160,6 +160,7 @@ def build_harness(lib, name, srcs, extra=(), std=None):
     deps = list(paths)
     cdir = os.path.join(HARNESS, "common")
     deps += sorted(os.path.join(cdir, f) for f in os.listdir(cdir))
+    deps += sorted(os.path.join(HARNESS, f) for f in os.listdir(HARNESS) if f.endswith(".h"))   # shared cNN_common.h headers
     for p in deps:
         h.update(p.encode())
         h.update(open(p, "rb").read())
@@ -266,6 +267,7 @@ def tlc(spec, cfg=None, workers=None, timeout=600, env=None, simulate=None, dept
     if workers is None:
         workers = NCPU
     cmd = ["java", "-XX:+UseParallelGC", "-Xmx" + xmx, "-XX:MaxDirectMemorySize=" + xmx]  # (TLC's off-heap fingerprint set would otherwise take 25% of the RAM)
+    cmd.append("-Djava.io.tmpdir=" + meta)   # TLC unpacks its standard modules into a tmp dir per run; keep it inside the metadir
     if xss:
         cmd.append("-Xss" + xss)
     if dfs:
